@@ -257,6 +257,7 @@ func (d *Driver) run(replay string) int {
 		v    *Violation
 		file string
 		pkg  string
+		spec *HarnessSpec
 	}
 	var cands []cand
 	type wit struct {
@@ -277,8 +278,9 @@ func (d *Driver) run(replay string) int {
 			}
 			seenSite[key] = true
 			f := filepath.Join(replayDir, fmt.Sprintf("%s-%d.json", r.Spec.Name, i))
-			writeReplay(f, r.Spec.Name, d.tier, v.Inputs, v.UFTable, map[string]interface{}{"kind": v.Kind, "msg": v.Msg, "site": v.Site, "stack": v.Stack, "property": d.prop})
-			cands = append(cands, cand{v: v, file: f, pkg: r.Spec.Pkg})
+			writeReplay(f, r.Spec.Name, d.tier, v.Inputs, v.UFTable, map[string]interface{}{"kind": v.Kind, "msg": v.Msg, "site": v.Site, "stack": v.Stack, "property": d.prop,
+				"decisions": v.Decision, "hidden": v.Hidden, "schedule_dependent": v.Scheduled})
+			cands = append(cands, cand{v: v, file: f, pkg: r.Spec.Pkg, spec: r.Spec})
 			byPkg[r.Spec.Pkg] = append(byPkg[r.Spec.Pkg], f)
 		}
 		var tags []string
@@ -300,6 +302,7 @@ func (d *Driver) run(replay string) int {
 		}
 	}
 	tracesValidated := 0
+	schedWitnesses := 0
 	traceMismatch := []string{}
 	confirmed := []cand{}
 	unconfirmed := []cand{}
@@ -317,6 +320,11 @@ func (d *Driver) run(replay string) int {
 			}
 		}
 		for _, w := range wits {
+			if w.w.Scheduled {
+				// witnesses whose path depends on scheduler or select choices cannot be forced natively
+				schedWitnesses++
+				continue
+			}
 			o := outcomes[filepath.Base(w.file)]
 			if o == nil {
 				traceMismatch = append(traceMismatch, w.h.Name+": no native outcome for witness "+w.w.Tag)
@@ -352,6 +360,17 @@ func (d *Driver) run(replay string) int {
 			o := outcomes[filepath.Base(c.file)]
 			if o != nil && (o.status == "assert" || o.status == "panic") {
 				confirmed = append(confirmed, c)
+			} else if c.v.Scheduled && c.spec != nil && eng.ReplayConcrete(c.spec, c.v, Limits{MaxSteps: 20_000_000, MaxDecisions: 4000, MaxCallDepth: 400, MaxConcretize: 70}) {
+				// schedule-dependent counterexample: Go's own scheduler cannot be forced to follow the
+				// recorded interleaving, so it is confirmed by concrete re-execution of the real code
+				// in the engine (all inputs fixed to the model's values, recorded schedule)
+				c.v.EngineConfirmed = true
+				st := "none"
+				if o != nil {
+					st = o.status
+				}
+				fmt.Printf("symgo: schedule-dependent counterexample for %s confirmed by concrete re-execution under the recorded schedule (native run under Go's scheduler: %s)\n", c.v.Harness, st)
+				confirmed = append(confirmed, c)
 			} else {
 				unconfirmed = append(unconfirmed, c)
 				st := "none"
@@ -363,6 +382,9 @@ func (d *Driver) run(replay string) int {
 		}
 	} else {
 		inconclusive = true
+	}
+	if schedWitnesses > 0 {
+		fmt.Printf("symgo: %d coverage witnesses depend on scheduler/select choices and were not replayed natively\n", schedWitnesses)
 	}
 	if len(traceMismatch) > 0 {
 		inconclusive = true
@@ -437,6 +459,25 @@ func init() {
 	reg(ndPkg+".Quiesce", func(in *Interp, fr *frame, a []Value) Value {
 		in.drain() // let every other goroutine run until it blocks or finishes
 		return nil
+	})
+	reg(ndPkg+".MutexState", func(in *Interp, fr *frame, a []Value) Value {
+		// 0 unlocked, 1 read-locked, 2 write-locked (the pointer may address a Mutex or RWMutex)
+		p, ok := a[0].(Iface).v.(*Value)
+		if !ok {
+			return in.ts.Const(64, ^uint64(0))
+		}
+		m := in.mutexes[p]
+		// sync.RWMutex embeds state in fields; Lock/RLock intrinsics key on the pointer passed to them
+		if m == nil {
+			return in.ts.Const(64, 0)
+		}
+		if m.writer {
+			return in.ts.Const(64, 2)
+		}
+		if m.readers > 0 {
+			return in.ts.Const(64, 1)
+		}
+		return in.ts.Const(64, 0)
 	})
 	reg(ndPkg+".RegisterReset", func(in *Interp, fr *frame, a []Value) Value { return nil })
 	reg(ndPkg+".AllowLeak", func(in *Interp, fr *frame, a []Value) Value { in.extra["allowLeak"] = true; return nil })
@@ -776,6 +817,39 @@ func (d *Driver) replayOnly(file string) int {
 	if o.status == "assert" || o.status == "panic" {
 		fmt.Printf("VIOLATION property=%s replay=%s\n", d.prop, file)
 		return 1
+	}
+	// schedule-dependent counterexample: re-execute concretely in the engine under the recorded schedule
+	var full struct {
+		Harness   string     `json:"harness"`
+		Tier      string     `json:"tier"`
+		Inputs    []uint64   `json:"inputs"`
+		Hidden    []uint64   `json:"hidden"`
+		Decisions []Decision `json:"decisions"`
+		Sched     bool       `json:"schedule_dependent"`
+		Kind      string     `json:"kind"`
+		Msg       string     `json:"msg"`
+	}
+	json.Unmarshal(data, &full)
+	if !full.Sched {
+		return 0
+	}
+	rel := strings.TrimPrefix(pkg, modPath+"/")
+	eng, err := LoadEngine(d.repo, d.overlay, []string{"./" + rel}, "verif")
+	if err != nil {
+		fmt.Fprintln(os.Stderr, "symgo: load:", err)
+		return 2
+	}
+	thorough = full.Tier == "thorough"
+	for _, h := range eng.findHarnesses(pkg, nil) {
+		if h.Name != full.Harness {
+			continue
+		}
+		v := &Violation{Harness: h.Name, Kind: full.Kind, Msg: full.Msg, Inputs: full.Inputs, Hidden: full.Hidden, Decision: full.Decisions, Scheduled: true}
+		if eng.ReplayConcrete(h, v, Limits{MaxSteps: 20_000_000, MaxDecisions: 4000, MaxCallDepth: 400, MaxConcretize: 70}) {
+			fmt.Println("symgo: schedule-dependent counterexample reproduced by concrete re-execution of the real code under the recorded schedule")
+			fmt.Printf("VIOLATION property=%s replay=%s\n", d.prop, file)
+			return 1
+		}
 	}
 	return 0
 }
